@@ -10,6 +10,7 @@ import NPModel.Refine.SortRows
 import NPModel.Refine.Samples
 import NPModel.Refine.Repacked
 import NPModel.Refine.SortNested
+import NPModel.Refine.CellOrder
 namespace NP.C11
 open NP
 variable {α β : Type}
@@ -87,30 +88,32 @@ theorem sorted_rows_repacked (F : NFrame α) (nest : String) (sorted : List (Str
 
 /-! ### end to end on the implementation model -/
 
-/-- **The comparator of `sort_values` is a total preorder** whenever the values carry a strict
-    weak order (`<` on numbers, strings, timestamps): ordinal first, then the keys lexicographically,
+/-- **The comparator of `sort_values` is a total preorder** whenever the cells of every key column
+    carry a strict weak order (`KeysOrdered`: `<` on numbers with NaN on top, strings, booleans,
+    timestamps — `cell_order_is_strict_weak` for the order the model is run with): ordinal first, then the keys lexicographically,
     each with its own direction, nulls placed by `na_position` independently of the direction.
     Hence the stable merge sort really returns a sorted permutation. -/
 theorem comparator_is_total_preorder [Inhabited α] (lt : α → α → Bool) (isNull : α → Bool) (naFirst : Bool)
-    (h : StrictWeak lt) (ords : List Label) (kcols : List (Bool × List α)) :
+    (ords : List Label) (kcols : List (Bool × List α)) (h : KeysOrdered lt isNull kcols) :
     (∀ a b, (sortLe lt isNull naFirst ords kcols a b || sortLe lt isNull naFirst ords kcols b a) = true) ∧
     (∀ a b c, sortLe lt isNull naFirst ords kcols a b = true → sortLe lt isNull naFirst ords kcols b c = true →
       sortLe lt isNull naFirst ords kcols a c = true) :=
-  ⟨sortLe_total lt isNull naFirst h ords kcols, sortLe_trans lt isNull naFirst h ords kcols⟩
+  ⟨sortLe_total lt isNull naFirst ords kcols h, sortLe_trans lt isNull naFirst ords kcols h⟩
 
 /-- **`sort_values` on a nested layer, end to end** (`NP.NFrame.sortNested`, the model checked
     against the code).  For every frame whose nested column `nest` is stored cleanly (any chunking
     and offsets), every list of keys naming fields of that column, any directions and null
-    placement, and any strict weak order on the values: the call succeeds and replaces only that
+    placement, and any comparison that is a strict weak order on the cells of every key column: the call succeeds and replaces only that
     column; the number of rows is unchanged; and row `i` of the result is missing when row `i` had
     no records, and otherwise is — for EVERY field at once — the old lists of row `i` read through
     ONE permutation `σ` of `0..len-1`: whole records move together, none is lost, duplicated or
     taken from another row; and `σ` is ordered by the requested keys, directions and null
     placement (`lexLe` over the key columns of the row's records). -/
-theorem sort_nested_permutes_rows [Inhabited α] (lt : α → α → Bool) (isNull : α → Bool) (hlt : StrictWeak lt)
+theorem sort_nested_permutes_rows [Inhabited α] (lt : α → α → Bool) (isNull : α → Bool)
     (F : NFrame α) (nest : String) (c : PCol α) (hc : F.nest? nest = .ok c) (hclean : c.Clean)
     (hch : c.chunks ≠ []) (hidx : F.index.length = c.len) (keys : List (String × Bool))
-    (hkeys : ∀ k ∈ keys, c.ty.any (·.1 == k.1) = true) (naFirst : Bool) :
+    (hkeys : ∀ k ∈ keys, c.ty.any (·.1 == k.1) = true) (naFirst : Bool)
+    (hlt : KeysOrdered lt isNull (sortKeyCols (ordFlat (colLists c) (c.rows.map Row.len)) keys)) :
     let lens := c.rows.map Row.len
     let kcols := sortKeyCols (ordFlat (colLists c) lens) keys
     ∃ col : PCol α, F.sortNested lt isNull nest keys naFirst = .ok (F.setCol nest (.nest col)) ∧
@@ -120,13 +123,14 @@ theorem sort_nested_permutes_rows [Inhabited α] (lt : α → α → Bool) (isNu
           some ((colLists c).map fun f => (f.1, σ.map fun q => (f.2.2.getD i []).getD q default))) ∧
         σ.Pairwise (fun q r => lexLe lt isNull naFirst
           (sortKeysAt kcols (rowStart lens i + q) (rowStart lens i + r)) = true) :=
-  sortNested_permutes_rows lt isNull hlt F nest c hc hclean hch hidx keys hkeys naFirst
+  sortNested_permutes_rows lt isNull F nest c hc hclean hch hidx keys hkeys naFirst hlt
 
 /-- the same in terms of flat positions: the sort permutation cut into the rows' extents -/
-theorem sort_nested_blocks [Inhabited α] (lt : α → α → Bool) (isNull : α → Bool) (hlt : StrictWeak lt)
+theorem sort_nested_blocks [Inhabited α] (lt : α → α → Bool) (isNull : α → Bool)
     (F : NFrame α) (nest : String) (c : PCol α) (hc : F.nest? nest = .ok c) (hclean : c.Clean)
     (hch : c.chunks ≠ []) (hidx : F.index.length = c.len) (keys : List (String × Bool))
-    (hkeys : ∀ k ∈ keys, c.ty.any (·.1 == k.1) = true) (naFirst : Bool) :
+    (hkeys : ∀ k ∈ keys, c.ty.any (·.1 == k.1) = true) (naFirst : Bool)
+    (hlt : KeysOrdered lt isNull (sortKeyCols (ordFlat (colLists c) (c.rows.map Row.len)) keys)) :
     let lens := c.rows.map Row.len
     let flat := ordFlat (colLists c) lens
     let kcols := sortKeyCols flat keys
@@ -138,7 +142,27 @@ theorem sort_nested_blocks [Inhabited α] (lt : α → α → Bool) (isNull : α
       (∀ i, i < lens.length → (blocks.getD i []).Perm
         ((List.range flat.index.length).filter fun p => flat.index.getD p (.int 0) == Label.int (i : Int))) ∧
       (∀ b ∈ blocks, b.Pairwise fun p q => lexLe lt isNull naFirst (sortKeysAt kcols p q) = true) :=
-  sortNested_rows lt isNull hlt F nest c hc hclean hch hidx keys hkeys naFirst
+  sortNested_rows lt isNull F nest c hc hclean hch hidx keys hkeys naFirst hlt
+
+/-- **The hypothesis `KeysOrdered` holds of the order the model is run with** (`cellLt`: numbers by
+    value with NaN above every number, strings by code points, booleans, timestamps; nulls never
+    reach it) for key columns that each hold one kind of value — the element types of the
+    property list — nulls and NaN included. -/
+theorem cell_order_is_strict_weak (kcols : List (Bool × List Cell)) (h : ∀ k ∈ kcols, ColOneKind k.2) :
+    KeysOrdered cellLt cellIsNull kcols :=
+  keysOrdered_cellLt kcols h
+
+/-- non-vacuity: a float column with NaN and nulls, and a string column, are each of one kind -/
+example : ColOneKind [some (.flt 3), none, some .nan, some (.int 2)] ∧ ColOneKind [some (.str "b"), none, some (.str "a")] := by
+  constructor
+  · refine ⟨0, ?_⟩
+    intro x hx
+    simp at hx
+    rcases hx with rfl | rfl | rfl <;> rfl
+  · refine ⟨1, ?_⟩
+    intro x hx
+    simp at hx
+    rcases hx with rfl | rfl <;> rfl
 
 /-- non-vacuity: `<` on the naturals is a strict weak order -/
 example : StrictWeak (fun (a b : Nat) => decide (a < b)) :=
